@@ -127,6 +127,14 @@ func roundTripCase(c *Ctx, xo *Opnd) {
 				var perr error
 				pv, _ := protect(func() { perr = cs.f(z, s) })
 				roundTripJudge(c, key()+" -> "+cs.name, s, xo, z, pv, perr, rp)
+				if rp != 0 && rp == precs[0] && pi%3 == ci%3 {
+					// a reused receiver: longer dirty buffer / empty mantissa over a dirty array
+					for _, pre := range []int{preBigDirty, preParsedZero} {
+						zd := buildPre(pre, rp, uint8(ToZero+ci%2))
+						pv, _ := protect(func() { perr = cs.f(zd, s) })
+						roundTripJudge(c, key()+" -> "+cs.name+" into "+preNames[pre], s, xo, zd, pv, perr, rp)
+					}
+				}
 			}
 		}
 		c.Outcome(fnvStr(0, s))
@@ -182,9 +190,18 @@ func textValues(tier string) []*Opnd {
 		exps = []int64{-25, -19, -18, -7, -6, -5, -4, -3, -1, 0, 1, 2, 5, 6, 7, 18, 19, 20, 21, 22, 25}
 	}
 	exps = append(exps, 38, 39, 57, -38, 70, 71, -70, -71, MinExp, MinExp+1, MinExp+2, MaxExp-2, MaxExp-1, MaxExp)
+	// printed exponents at every change of their digit count (…9 | 10…, 99 | 100, 999 | 1000, …): for every 8th value (all of them: thorough)
+	var bexps []int64
+	for _, b := range []int64{100, 1000, 10000, 100000, 1000000, 1000000000} {
+		bexps = append(bexps, b-1, b, b+1, b+2, -b+3, -b+2, -b+1, -b)
+	}
 	var out []*Opnd
-	for _, b := range base {
-		for _, e := range exps {
+	for bi, b := range base {
+		es := exps
+		if thorough || bi%8 == 0 {
+			es = append(append([]int64{}, exps...), bexps...)
+		}
+		for _, e := range es {
 			for _, neg := range []bool{false, true} {
 				o := *b
 				o.Exp = e
@@ -278,7 +295,7 @@ func textLayers(tier string) []Layer {
 	}, {
 		Name:   "T1-roundtrip",
 		Units:  (n + chunk - 1) / chunk,
-		Bounds: fmt.Sprintf("%d values (D(k) ∪ run-length strings ∪ W(3,S7) with low/interior zero words) × exponents (sub-word, multi-word, %%g thresholds, range ends) × ±, plus ±0, ±Inf (also in variables that held finite values before); producers Text e/E/f/g/G/p (-1), b, Append, MarshalText, json.Marshal; consumers Parse(10), Parse(0), SetString, UnmarshalText, json.Unmarshal at receiver precision {MinPrec, MinPrec+1, x.prec, 0}", n),
+		Bounds: fmt.Sprintf("%d values (D(k) ∪ run-length strings ∪ W(3,S7) with low/interior zero words) × exponents (sub-word, multi-word, %%g thresholds, every change of the printed exponent's digit count up to 10^9, range ends) × ±, plus ±0, ±Inf (also in variables that held finite values before); producers Text e/E/f/g/G/p (-1), b, Append, MarshalText, json.Marshal; consumers Parse(10), Parse(0), SetString, UnmarshalText, json.Unmarshal at receiver precision {MinPrec, MinPrec+1, x.prec, 0}, fresh receivers and (for a third of the producer/consumer pairs) reused ones (40-word dirty buffer; empty mantissa over a dirty array)", n),
 		Run: func(c *Ctx, u int) {
 			if vals == nil {
 				vals = textValues(tier)
